@@ -405,6 +405,25 @@ def c_dtext(run):
     return run
 
 
+def c_dict_proj_viol(run):
+    e = _ev(run, "dict_proj")
+    e["items"][0]["viol"] = 1
+    return run
+
+
+def c_dict_proj_count(run):
+    e = _ev(run, "dict_proj")
+    e["items"][0]["npos"] += 1
+    return run
+
+
+def c_dict_proj_range(run):
+    e = _ev(run, "dict_proj")
+    m = e["items"][0]["m"]
+    e["items"][0]["m"] = [m[0], m[1] + 1, m[2]]
+    return run
+
+
 def c_proj(run):
     e = _ev(run, "sa_proj")
     e["violations"] = 1
@@ -498,6 +517,15 @@ def run(ctx):
                       c_longest_short, "min_pattern_length 4: a shorter longest match answered Some"))
     if not big_ls:
         raise vlib.ToolError("binding self-test: no trace file of sab:ls / big")
+    dbig = _files_of(files, "dict:ls", "blocks big")
+    cbig = _files_of(files, "csa:dict", "blocks big")
+    if not (dbig and cbig):
+        raise vlib.ToolError("binding self-test: no trace file of dict:ls / csa:dict for the block texts")
+    has_dp = lambda c: _ev(c, "dict_proj") is not None
+    tests.append((dbig[0], has_dp, c_dict_proj_viol, "projected dictionary case: occurrences of the block out of suffix order"))
+    tests.append((dbig[0], has_dp, c_dict_proj_count, "projected dictionary case: one position too many"))
+    tests.append((dbig[0], has_dp, c_dict_proj_range, "projected dictionary case: rank range of the block widened by one"))
+    tests.append((cbig[0], lambda c: _ev(c, "sa_proj") is not None, c_proj, "projected compressor case: one adjacent order violation"))
     if big_ls:
         tests.append((big_ls[0], lambda c: _ev(c, "sa_proj") is not None, c_proj, "projected case: one adjacent order violation"))
     _selftests(ctx, tests)
@@ -534,11 +562,11 @@ def run(ctx):
     cov["rule"] = ("a case = one (subject, text) pair: subject = construction algorithm / entry point (SuffixArrayBuilder x "
                    "{SAIS, DivSufSort, DC3, LarssonSadakane, Adaptive}, SA-IS without optimize_small_alphabet / through the parallel "
                    "path, SuffixArray::new + Algorithm::execute, EnhancedSuffixArray::with_lcp / with_bwt, compression::"
-                   "SuffixArrayCompressor x 4 presets, dict_zip::SuffixArrayDictionary x 6: array by Adaptive / SA-IS, pattern window 4..8, deserialize(serialize), load_from_file(save_to_file), optimize_cache; Adaptive with adaptive_threshold = 16); texts are distinct by content.  "
+                   "SuffixArrayCompressor x 4 presets, dict_zip::SuffixArrayDictionary x 9: array by Adaptive / SA-IS / LarssonSadakane / DC3 / DivSufSort, pattern window 4..8, deserialize(serialize), load_from_file(save_to_file), optimize_cache; Adaptive with adaptive_threshold = 16); texts are distinct by content.  "
                    "Counted when the text has >= 2 bytes and the subject returned an array (or dictionary) whose answers were "
                    "recorded and judged.  exhaustive refers to: EVERY string over 3 symbols (a,b,c) of length 0..%d for the five "
                    "builder algorithms, 0..%d for the other array entry points, 0..%d for the dictionary and for the symbol map "
-                   "(0x00,0x80,0xFF); families (a^n, (ab)^n, (abc)^n, Fibonacci and Thue-Morse words incl. lengths 15/16/17, runs, texts on both sides of every branch of select_algorithm (4|5 symbols, repetition ratio 0.69..0.71, entropy 1.6|2.2), texts ending in their smallest / largest symbol and in 0x00 / 0xFF, monotone, all 256 byte values, random "
+                   "(0x00,0x80,0xFF); families (a^n, (ab)^n, (abc)^n, Fibonacci and Thue-Morse words incl. lengths 15/16/17, runs, texts on both sides of every branch of select_algorithm (4|5 symbols, repetition ratio 0.69..0.71, entropy 1.6|2.2), texts ending in their smallest / largest symbol and in 0x00 / 0xFF, texts B f1 B f2 [B f3] with a repeated block B of 15/16/17/255/256/257 bytes (judged entry by entry) and 255..257/1023/1024/1025/4095/4096/4097/70 000 bytes (projection; every adjacent rank pair is compared, so the pairs around the occurrences of B are included), B random over 256 / 4 symbols, runs of 8, low entropy, periodic, a^n, the earlier occurrence followed by the smaller and by the larger byte, for every builder algorithm, every Adaptive branch, the compressor and the dictionary over each construction; monotone, all 256 byte values, random "
                    "over alphabets of 1..256 symbols incl. 0x00/0x80/0xFF, length <= 300, random of 1200+) are samples; texts of "
                    "9 999 / 10 000 / 20 000 / 50 000 / 50 001 .. %s bytes (both sides of the size thresholds of Adaptive) are judged through the projection (permutation flag, adjacent order violations = 0).  "
                    "Every case carries the whole array, suffix_at_rank(0..=n), the LCP array, and the answers of every search API "
